@@ -50,12 +50,13 @@ class C26(core.Check):
         self.pysched = pysched
         self.hook = pysched.CLockHook(_cffi_backend.__file__)
         self.cur = None
+        self.making = False
         self.real_allocate_lock = cffi.api.allocate_lock
         check = self
 
         def alloc():
             s = check.cur
-            if s is None:
+            if s is None and not check.making:
                 return check.real_allocate_lock()
             check.nlocks += 1
             return pysched.SimLock(lambda: check.cur, name='L%d' % check.nlocks)
@@ -125,7 +126,15 @@ class C26(core.Check):
                 return not self.__eq__(other)
 
         if impl == 'py':
-            ffis = [self.cffi.FFI() for _ in range(case['nffi'])]
+            # every lock these FFI objects allocate -- also in __init__ -- is a SimLock, so that a
+            # lock shared between tags blocks in the scheduler (exact deadlock), never in the OS
+            self.making = True
+            self.api.allocate_lock = self._alloc
+            try:
+                ffis = [self.cffi.FFI() for _ in range(case['nffi'])]
+            finally:
+                self.api.allocate_lock = self.real_allocate_lock
+                self.making = False
         else:
             ffis = [self.backend.FFI() for _ in range(case['nffi'])]
 
